@@ -7,7 +7,8 @@ down so that the 'flat' clause K_N*L <= r is hit in every dimension.  Solve's lo
 then Solve() is called (it makes no further trial) and its returned best value is used.
 The statement is tested literally whenever the accuracy stop was reached (Solve stopped with budget left, or
 solutionAccuracy < eps; eps in (0,1)) and
-the reliability condition holds with the final M (r*M_final >= K_N*L; K_1 = 2, K_N = 2^(3-1/N) sqrt(N+3)):
+the reliability condition holds with the final M (M recomputed from the trial history: the largest slope between points that
+were neighbours when one of them was placed, floored at 1 - not the method's own estimate; r*M_final >= K_N*L; K_1 = 2, K_N = 2^(3-1/N) sqrt(N+3)):
   eps-optimal   best - min f < (r*M_final/2)*eps + L*2^-m*(sqrt(N+3)+sqrt(N)/2)   (grid term 0 for N = 1)
                 (a failure needs gap > bound*(1+1e-9)+1e-12 to be reported)
   returned-is-best  the value returned by Solve equals the smallest logged value (so that the bound is about the result)
@@ -33,7 +34,7 @@ WITNESS = {"n": 1, "m": 10, "lim": 1000, "eps": 0.01, "r": 2.5, "lower": [0.0], 
            "refine": False}
 RULE = ("exact-minimum families (pwlsum, pwlmax, cone, linear, const, needle for N=1) from objectives.gen_spec(exact_only), 45% "
         "of them rescaled so that K_N*L is spread around r (flat and nearly-reliable cases in every dimension), 8% perturbations "
-        "of the known-finding witness (a thin deep spike under the last trial point, built adaptively), 15% 1-D sawtooth functions with 2L = r (least slack); random box, N=1..5, density, r in (1.05,6], eps "
+        "of the known-finding witness (a thin deep spike under the last trial point, built adaptively), 8% flat ramps with narrow wells (2L <= r, all slopes seen far below 1), 15% 1-D sawtooth functions with 2L = r (least slack); random box, N=1..5, density, r in (1.05,6], eps "
         "per dimension so that the accuracy stop is reachable within itersLimit in {400,1000,2500}. explored = runs; a run is "
         "distinct by its parameter set and non-trivial if it stopped by accuracy AND satisfied the reliability condition (only "
         "then the statement claims anything); stats split them into flat (K_N*L<=r), reliable by M, unreliable, no accuracy stop.")
@@ -43,6 +44,25 @@ EPS_BY_DIM = {1: [0.2, 0.1, 0.05, 0.02, 0.01, 0.003, 1e-3, 1e-4],
               3: [0.7, 0.5, 0.3, 0.2, 0.1, 0.05],
               4: [0.8, 0.6, 0.5, 0.3, 0.2, 0.1],
               5: [0.9, 0.7, 0.6, 0.5, 0.3, 0.2]}
+
+
+def observed_M(run, n):
+    """(M before the last trial, M after it) recomputed from the trial history alone: the largest |dz|/|dx|^(1/N) between
+    points that were neighbours at the moment one of them was placed, never below 1 - the statement's M, independent of
+    the estimate the method keeps for itself"""
+    import bisect
+    hist = run.history()[0]
+    pts, M, Mb = [], 1.0, 1.0
+    for x, z, _ in hist:
+        Mb = M
+        i = bisect.bisect(pts, (x, z))
+        for j in (i - 1, i):
+            if 0 <= j < len(pts):
+                d = abs(x - pts[j][0]) ** (1.0 / n)
+                if d > 0:
+                    M = max(M, abs(z - pts[j][1]) / d)
+        pts.insert(i, (x, z))
+    return Mb, M
 
 
 def check_case(case):
@@ -73,7 +93,12 @@ def check_case(case):
     info["float_collapse"] = bool(run.collapsed)
     g = run.glog()
     info["trials"] = len(g)
-    Mf = float(run.solver.method.M[0])
+    Mb_obs, Mf_obs = observed_M(run, n)
+    info["M_method"] = float(run.solver.method.M[0])
+    # the statement's M is the largest slope SEEN (floored at 1), recomputed here from the history; the method's own estimate
+    # is compared with it by the C02 oracle
+    Mf = Mf_obs
+    Mb = Mb_obs if Mb is not None else None
     acc = sol.solutionAccuracy
     _, best = oc.best_of(sol)
     if g and best != min(e[2] for e in g):
@@ -143,12 +168,31 @@ def sawtooth(r):
     return oc.gen_case(r, n=1, spec=spec, eps=eps, lim=2500, rr=rr)
 
 
+def flat_well(r):
+    """N = 1, an almost flat ramp with one or two narrow wells whose slopes keep 2L <= r: the bound is unconditional, every
+    slope the search sees before it meets a well is far below 1 (only the floor M >= 1 keeps the search global)"""
+    rr = round(r.uniform(2.05, 4.5), 2)
+    eps = r.choice([0.03, 0.02, 0.01, 0.005])
+    trend = r.choice([0.0, 0.002, 0.01, 0.05, -0.01])
+    sp = []
+    for _ in range(r.randint(1, 2)):
+        c = round(r.uniform(0.05, 0.95), 4)
+        w = round(r.uniform(0.01, 0.08), 4)
+        h = round(r.uniform(0.4, 1.0) * (rr / 2.0 - abs(trend)), 4)
+        if all(abs(c - c2) > w + w2 + 1e-3 for c2, w2, _ in sp):
+            sp.append((c, w, h))
+    spec = {"kind": "needle", "spikes": sp, "trend": trend}
+    return oc.gen_case(r, n=1, spec=spec, box=([0.0], [1.0]) if r.random() < 0.5 else None, eps=eps, lim=2500, rr=rr)
+
+
 def gen(r):
     n = r.choice((1, 1, 1, 2, 2, 3, 3, 4, 5))
     u = r.random()
     rr = round(r.uniform(1.05, 6.0), 2)
     if u < 0.08:
         return witness_neighbour(r)
+    if 0.08 <= u < 0.16:
+        return flat_well(r)
     if u > 0.85:
         return sawtooth(r)
     spec = objectives.gen_spec(r, n, exact_only=True)
